@@ -169,7 +169,7 @@ func asString(d any) (string, error) {
 		var i string
 		stringType := reflect.TypeOf(i)
 		dValue := reflect.ValueOf(d)
-		if !dValue.IsValid() || !dValue.CanConvert(stringType) {
+		if !dValue.IsValid() || !kindsAgree(dValue.Kind(), stringType.Kind()) || !dValue.CanConvert(stringType) {
 			return "", &ConstraintError{
 				Message: fmt.Sprintf("%T is not a valid data type for a string schema.", d),
 			}
